@@ -89,7 +89,52 @@ def key_events(f):
     return res
 
 
+
+def transform_direct(db, cx):
+    """C19.5-transform-direct (seeded change c19e): the reader stores the transform object that
+    `detail::import_transform` builds from the JSON array - the layout rule C19.5-transform-layout
+    proves that object equal to what was written - and does not pass it through anything else."""
+    n = 0
+    allowed_tail = ("::import_transform", "::make_transform", "::slice", "::make_span")
+    for nm in db.find(r"^celeritas::from_json$"):
+        for f in db.get(nm):
+            for (_b, _i, e) in f.events("call"):
+                if e["callee"] != "std::vector::push_back" or \
+                        "std::variant<celeritas::NoTransformation" not in e.get("inst", ""):
+                    continue
+                a = e["args"][0]
+                calls = [c for c in a.get("calls", []) if c.startswith(C)]
+                extra = [c for c in calls if not c.endswith(allowed_tail) and "::OpaqueId" not in c]
+
+                def forwards(c):
+                    """a helper that only forwards to import_transform (no writes, no other call)"""
+                    gs = db.get(c)
+                    if not gs:
+                        return False
+                    for g in gs:
+                        if any(True for _x in g.events("write")):
+                            return False
+                        rc = [c2 for (_b2, _i2, e2) in g.events("call") for c2 in [e2["callee"]] if c2.startswith(C)]
+                        if not rc or any(not c2.endswith("::import_transform") and "::OpaqueId" not in c2 for c2 in rc):
+                            return False
+                    return True
+                if extra and all(forwards(c) for c in extra):
+                    extra = []
+                    calls = calls + [C + "detail::import_transform"]
+                direct = any(c.endswith("::import_transform") or c.endswith("::make_transform") for c in calls)
+                n += 1
+                cx.ob("C19.5-transform-direct",
+                      "daughter transform read @%s is the object built by import_transform" %
+                      short(e["loc"]).split(":", 1)[1], direct and not extra,
+                      "built by: %s" % (", ".join(c.split("::")[-1] for c in calls) or a.get("t", "")[:60]),
+                      short(e["loc"]),
+                      why="anything done to the matrix after it was read (re-orthonormalising, "
+                          "re-normalising) is applied on the reading side only: reflections and "
+                          "general rotations do not survive the round trip")
+    cx.floor("daughter transforms pushed by the UnitInput reader", n, 2)
+
 def run(db, cx):
+    transform_direct(db, cx)
     acc = accessor_summary(db)
     tos = {}
     froms = {}
